@@ -370,7 +370,30 @@ fn run(case: &Value) -> Value {
     }
 }
 
-const PROBES: &[&str] = &["mass of earth to kg", "population finland", "population sweden + population finland", "diameter moon to km"];
+const PROBES: &[&str] = &["mass of earth to kg", "population finland", "population sweden + population finland", "diameter moon to km", "zzyzxqk", "2 * zzyzxqk"];
+
+/// an openable index with OTHER content: the index of a complete start plus one fact ("zzyzxqk") the shipped data lacks
+fn add_foreign_fact(index_path: &std::path::Path) -> Result<(), String> {
+    use tantivy::tokenizer::{LowerCaser, NgramTokenizer, TextAnalyzer};
+    let index = tantivy::Index::open_in_dir(index_path).map_err(|e| e.to_string())?;
+    index.tokenizers().register("ngram", TextAnalyzer::from(NgramTokenizer::new(1, 7, true)).filter(LowerCaser));
+    let schema = index.schema();
+    let field_data = schema.get_field("data").ok_or("no data field")?;
+    let field_name = schema.get_field("name").ok_or("no name field")?;
+    let payload = {
+        let reader = index.reader().map_err(|e| e.to_string())?;
+        let doc = reader.searcher().doc(tantivy::DocAddress::new(0, 0)).map_err(|e| e.to_string())?;
+        match doc.get_first(field_data) { Some(tantivy::schema::Value::Bytes(b)) => b.clone(), _ => return Err("no stored payload".into()) }
+    };
+    let mut writer = index.writer(50_000_000).map_err(|e| e.to_string())?;
+    let mut doc = tantivy::Document::default();
+    doc.add_bytes(field_data, payload);
+    doc.add_text(field_name, "zzyzxqk");
+    writer.add_document(doc).map_err(|e| e.to_string())?;
+    writer.commit().map_err(|e| e.to_string())?;
+    writer.wait_merging_threads().map_err(|e| e.to_string())?;
+    Ok(())
+}
 
 fn probe_answers(db: &anything::Db) -> Vec<Value> {
     let mut out = Vec::new();
@@ -430,6 +453,10 @@ fn open_sequence(case: &Value) -> Value {
     } else if index[1] == "empty" {
         let (code, _) = run_child(&base, Some("index-created#1"));
         if code == Some(0) { return json!({ "ok": { "unrealisable": true } }); }
+    } else if index[1] == "other" {
+        let (code, _) = run_child(&base, None);
+        if code != Some(0) { return json!({ "err": "could not build the initial index" }); }
+        if let Err(e) = add_foreign_fact(&data.join("index")) { return json!({ "err": format!("could not add the foreign fact: {}", e) }); }
     } else {
         return json!({ "ok": { "unrealisable": true } });
     }
